@@ -108,6 +108,12 @@ impl ProcessState {
             dbfile.push("db.sqlite3");
             dbfile
         };
+        // Creating the database and checking its schema must not overlap
+        // with another process doing the same: a half-created database has
+        // no tables yet, and two creators would unlink each other's file.
+        // Byte 0 of the lock file is reserved (no File has id 0).
+        let mut init_lock = Lock::new(lock_manager.clone(), 0);
+        init_lock.wait_lock(LockType::Exclusive)?;
         let must_create = !dbfile.exists();
         // A transaction that is going to write must take the write lock up
         // front: upgrading a read transaction fails with SQLITE_BUSY_SNAPSHOT
@@ -212,6 +218,8 @@ impl ProcessState {
 
             tx.commit().map_err(RedoError::opaque_error)?;
         }
+        init_lock.unlock()?;
+        mem::drop(init_lock);
 
         Ok(ProcessState {
             db,
